@@ -1,7 +1,7 @@
 """C02 - start times are forced, bookkeeping matches, histories replay."""
 
 from ..dworld import DWorld, Hooks, run_ops, gen_dispatch_ops, gen_filter, observe_dispatcher
-from ..instances import gen_instance, n_ops, build
+from ..instances import gen_instance, n_ops, build, is_flexible
 from ..util import stream, Foreign
 from ..core import short_exc
 
@@ -27,7 +27,7 @@ def generate(seed, tier):
     ops = gen_dispatch_ops(rng, n_ops(spec), p_fork=0.03 if rng.random() < 0.3 else 0.0, p_solve_rest=0.03 if rng.random() < 0.4 else 0.0, p_query=0.08, p_invalid=0.1 if faulty else 0.0,
                            p_reset=0.05 if faulty else 0.0, episodes=2 if rng.random() < 0.2 else 1)
     return {"prop": PROP, "cfg": {"instance": spec, "filter": names, "filter_style": style,
-                                  "observers": [{"t": "history"}], "gif_replay": rng.random() < 0.35}, "ops": ops}
+                                  "observers": [{"t": "history", "manual": stream(seed, "c02-manual").random() < 0.15}], "gif_replay": rng.random() < 0.35}, "ops": ops}
 
 
 def sched_of(d):
@@ -131,6 +131,25 @@ def replay_oracles(w, same_too=True):
     if sched_of(fresh) != want:
         ctx.fail("replay_on_fresh_dispatcher", f"replay gives {sched_of(fresh)}, original {want}")
     ctx.probe("replay_fresh")
+    # (a') the same history in its per-machine form (job sequences), re-dispatched twice from the same record
+    if not is_flexible(w.spec) and len(recorded) == n_ops(w.spec):  # (job sequences describe complete schedules only)
+        from job_shop_lib import Schedule
+
+        seqs = [[] for _ in range(inst2.num_machines)]
+        for o, mm in recorded:
+            seqs[mm].append(o.job_id)
+        seqs0 = [list(s) for s in seqs]
+        for attempt in (1, 2):
+            try:
+                s4 = Schedule.from_job_sequences(inst2, seqs)
+            except Exception as e:  # noqa: BLE001
+                ctx.fail("replay_from_job_sequences", f"re-dispatching the per-machine job sequences {seqs0} (attempt {attempt} with the same record, now {seqs}) raised {short_exc(e)}")
+                break
+            got4 = [[(so.operation.operation_id, so.start_time, so.machine_id) for so in ml] for ml in s4.schedule]
+            if got4 != want:
+                ctx.fail("replay_from_job_sequences", f"re-dispatching the per-machine job sequences {seqs0} (attempt {attempt}) gives {got4}, original {want}")
+                break
+        ctx.probe("replay_job_sequences")
     # (c) the GIF/video replay path
     if w.cfg.get("gif_replay"):
         import job_shop_lib.visualization._gantt_chart_video_and_gif_creation as gm
